@@ -12,6 +12,10 @@ The full statement — agreement on every program of the reference's typed core 
 current code** (`c02_counterexample_*`).  Proved instead, inside the decidable guard `Strict`:
 after every cycle of every run, for all inputs and every budget, every variable has the
 reference's value, and a fault is raised exactly when, and of the kind, the reference says.
+
+Fragment: stages S1–S3 (elementary variables, every statement form, one-dimensional arrays and
+flat structs of the PROGRAM; a subscript outside the bounds is the fault `indexOut` ↔
+`IndexOutOfBounds`).  Calls (S4/S5) are compared against the real code only.
 -/
 namespace TrustVerif.StCore
 
@@ -39,11 +43,16 @@ theorem c02_every_cycle_partial (p : Program) (hS : Strict p = true) (ins : Inpu
     simp only [Strict, Bool.and_eq_true] at hS; exact hS.1.1
   have hσ0 := init_WT p hT
   have hinit : Spec.initEnv p = eraseEnv p.initStore.vars := by
-    simp only [Spec.initEnv, Program.initStore, eraseEnv, List.map_map]
+    simp only [Spec.initEnv, Program.initStore, Program.slots, eraseEnv, List.map_append, List.map_map]
     congr 1
-    funext d
-    simp only [Function.comp, VarDecl.initVal]
-    cases d.ty <;> rfl
+    · apply List.map_congr_left
+      intro d _
+      simp only [Function.comp, VarDecl.initVal]
+      cases d.ty <;> rfl
+    · apply List.map_congr_left
+      intro q _
+      obtain ⟨k, t⟩ := q
+      cases t <;> rfl
   obtain ⟨_, _, i3⟩ := run_inv p hS ins hins p.initStore hσ0 fuel n
   obtain ⟨_, r2⟩ := run_report p hS ins hins p.initStore hσ0 fuel n
   rw [hinit]
@@ -63,6 +72,26 @@ example : Strict Wit.strictSample = true ∧
       ([("i", .n 5), ("d", .n 10), ("u", .n 16), ("b", .b true), ("g", .n 3)], none) := by
   decide +kernel
 
+/-- Non-vacuity for stage S3 (arrays and structs): the sample is inside the guard; both semantics
+fill `ar` in the FOR loop, read `ar[i - 1]` through a computed subscript and update the struct. -/
+example : Strict Wit.s3Sample = true ∧
+    (Wit.firstCycle Wit.s3Sample).1 = none ∧
+    eraseEnv (Wit.firstCycle Wit.s3Sample).2 =
+      [("i", .n 4), ("d", .n 8), ("ar[0]", .n 6), ("ar[1]", .n 2), ("ar[2]", .n 4), ("ar[3]", .n 6),
+       ("sv.f0", .n 7), ("sv.f1", .b true)] ∧
+    Spec.cycle Wit.s3Sample 100 (Spec.initEnv Wit.s3Sample) =
+      ([("i", .n 4), ("d", .n 8), ("ar[0]", .n 6), ("ar[1]", .n 2), ("ar[2]", .n 4), ("ar[3]", .n 6),
+        ("sv.f0", .n 7), ("sv.f1", .b true)], none) := by
+  decide +kernel
+
+/-- A subscript one past the end, inside the guard: the reference raises `indexOut`, the
+implementation `IndexOutOfBounds`, at the same point (`ar[0..3]` already written). -/
+example : Strict Wit.s3OutOfBounds = true ∧
+    (Wit.firstCycle Wit.s3OutOfBounds).1 = some (.fault .IndexOutOfBounds .indexBounds) ∧
+    Spec.cycle Wit.s3OutOfBounds 100 (Spec.initEnv Wit.s3OutOfBounds) =
+      (eraseEnv (Wit.firstCycle Wit.s3OutOfBounds).2, some .indexOut) := by
+  decide +kernel
+
 /-- The reference itself follows IEC: `/` truncates toward zero, `MOD` has the sign of the
 dividend, arithmetic faults on overflow of the operand type, `AND` short-circuits (the division
 by zero on the right is not evaluated). -/
@@ -70,7 +99,7 @@ example :
     Spec.arith .div (-7) 2 = .ok (-3) ∧ Spec.arith .mod (-7) 2 = .ok (-1) ∧
     Spec.arith .mod 7 (-2) = .ok 1 ∧ Spec.arith .div 1 0 = .error .divZero ∧
     Spec.inType .sint 128 = .error .overflow ∧
-    Spec.eval [("x", .int .dint)] [("x", .n 0)]
+    Spec.eval { vars := [("x", .int .dint)] } [("x", .n 0)]
       (.bin .and (.blit false) (.bin .eq (.bin .div (.var "x") (.var "x")) (.var "x"))) = .ok (.b false) :=
   ⟨rfl, rfl, rfl, rfl, rfl, rfl⟩
 
@@ -86,12 +115,13 @@ theorem c02_counterexample_int_overflow :
     (runFrom .real Wit.driftIntLiteral 100 (fun _ => []) 2 (Wit.init Wit.driftIntLiteral)).store.vars
       = [("c", .i .dint 32768)] := by decide +kernel
 
-/-- **Counterexample (`RETURN` in a PROGRAM).**  Reference: early exit, cycle completes with
-`x = 1`; implementation: `InvalidControlFlow`. -/
-theorem c02_counterexample_return :
-    Spec.typed Wit.returnInProgram = true ∧
+/-- **Regression fact (`RETURN` in a PROGRAM, fixed in f3b5b76).**  Reference and implementation
+agree: early exit, the cycle completes with `x = 1` — and the program is inside the guard, so
+`c02_refines_partial` covers it. -/
+theorem c02_return_in_program_agrees :
+    Strict Wit.returnInProgram = true ∧
     Spec.cycle Wit.returnInProgram 100 (Spec.initEnv Wit.returnInProgram) = ([("x", .n 1)], none) ∧
-    (Wit.firstCycle Wit.returnInProgram).1 = some (.fault .InvalidControlFlow .programFlow) := by
+    Wit.firstCycle Wit.returnInProgram = (none, [("x", .i .dint 1)]) := by
   decide +kernel
 
 /-- **Counterexample (`ULINT as i64` in FOR bounds).**  Reference: three iterations, `n = 3`;
@@ -103,14 +133,26 @@ theorem c02_counterexample_for_ulint :
     (Wit.firstCycle Wit.forUlintCast).1 = some (.fault .TypeMismatch .forCoerceNegative) := by
   decide +kernel
 
-/-- The repairs modelled by `Cfg` remove these three disagreements (what the oracle uses to
-attribute a mismatch to a recorded finding): literal lowering to the checker's type, `RETURN` as
-early exit, exact FOR bounds. -/
+/-- **Counterexample (`ULINT as i64` in array subscripts).**  `ar : ARRAY[-2..2] OF DINT`,
+`u = 2^64 - 2`: the reference raises `indexOut` at `ar[u] := DINT#7`; the implementation casts the
+subscript to `-2`, writes `ar[-2]`, reads it back into `x` and completes the cycle. -/
+theorem c02_counterexample_index_ulint :
+    Spec.typed Wit.indexUlintCast = true ∧ Wit.indexUlintCast.accepted = true ∧
+    (Spec.cycle Wit.indexUlintCast 100 (Spec.initEnv Wit.indexUlintCast)).2 = some .indexOut ∧
+    (Wit.firstCycle Wit.indexUlintCast).1 = none ∧
+    lookup "ar[-2]" (Wit.firstCycle Wit.indexUlintCast).2 = some (.i .dint 7) ∧
+    lookup "x" (Wit.firstCycle Wit.indexUlintCast).2 = some (.i .dint 7) := by
+  decide +kernel
+
+/-- The repairs modelled by `Cfg` remove these disagreements (what the oracle uses to
+attribute a mismatch to a recorded finding): literal lowering to the checker's type, exact FOR
+bounds, exact subscripts. -/
 theorem c02_repairs_remove_the_counterexamples :
     reportAt { litSmallest := true } Wit.driftIntLiteral 100 (fun _ => []) 1 (Wit.init Wit.driftIntLiteral)
       = some (.fault .Overflow .narrow) ∧
-    (cycle { returnOk := true } Wit.returnInProgram 100 (Wit.init Wit.returnInProgram)).2 = none ∧
-    (cycle { forExact := true } Wit.forUlintCast 100 (Wit.init Wit.forUlintCast)).2 = none := by
+    (cycle { forExact := true } Wit.forUlintCast 100 (Wit.init Wit.forUlintCast)).2 = none ∧
+    (cycle { idxExact := true } Wit.indexUlintCast 100 (Wit.init Wit.indexUlintCast)).2
+      = some (.fault .IndexOutOfBounds .indexBounds) := by
   decide +kernel
 
 end TrustVerif.StCore
